@@ -12,3 +12,4 @@ import Gmsm.Proofs.ECFormulas
 import Gmsm.Props.C01
 import Gmsm.Props.C02
 import Gmsm.Props.C13
+import Gmsm.Props.C14
